@@ -239,7 +239,8 @@ def bldAttr (xattrs : List (Nat × String)) (a : FAttr) : Nat × Option String :
 def buildObj (flat : Nat → Option FlatClass) : Nat → Nat → XNode → Option Obj
   | 0, _, _ => none
   | fuel+1, c, .mk _ xattrs tx xch =>
-    if c = textCls then some (.mk textCls [] tx []) else
+    -- a simple-content child: `child_.text` through `gds_parse_string` / `gds_validate_string` (`None` -> `""`)
+    if c = textCls then some (.mk textCls [] (some (tx.getD "")) []) else
     match flat c with
     | none => none
     | some k =>
